@@ -155,6 +155,9 @@ func builtinMathPow(call FunctionCall) Value {
 	// TODO Make sure this works according to the specification (15.8.2.13)
 	x := call.Argument(0).float64()
 	y := call.Argument(1).float64()
+	if math.IsNaN(y) {
+		return NaNValue() // 15.8.2.13, first bullet (Go's Pow(1, NaN) is 1)
+	}
 	if math.Abs(x) == 1 && math.IsInf(y, 0) {
 		return NaNValue()
 	}
